@@ -23,13 +23,15 @@ ID = "C07"
 LEVEL = "exploration"
 RULE = (
     "Hypothesis codebases (files x paths x languages x measurement lists x insertion order); non-trivial = some file "
-    "at depth >= 3, >= 2 languages and >= 1 function longer than 30; distinct by digest of the whole generated codebase"
+    "at depth >= 3, >= 2 languages and >= 1 function longer than 30; distinct by digest of the whole generated codebase. "
+    "Plus really scanned trees (flat and 'minified' sources whose functions share lines) through the scan entry point and scan_path: "
+    "the same oracle, fed with the measurements the report itself lists"
 )
 ASSUMPTIONS = [
     "aggregate() is called exactly once, as every caller in the tool does",
     "no duplicate file paths, '/' separated; a quarter of the runs also puts a FILE and a FOLDER of the same name under one parent "
     "(the data model lists them as 'name' and 'name/'; a file system could not hold both, so C11 never does this)",
-    "file loc is the sum of its function lengths, as Scanner._analyze_file computes it",
+    "file loc is the sum of its function lengths, as Scanner._analyze_file computes it (on scanned trees this is checked, not assumed)",
 ]
 FLOOR = {"quick": 300, "thorough": 5000}
 
